@@ -98,7 +98,13 @@ let run_store store ops =
   if is_file store then begin
     let (st, outs) = runf (file_stepper store) file_init ops in
     let l = List.map show_fout outs in
-    (l, l, show_disk (List.map (fun (p, c) -> Printf.sprintf "%d=%d,%d" (ii p) (ii c.b_hash) (ii c.b_len)) st.f_disk))
+    (* the abstract specification (C06_refines_file) speaks about histories without the aliasing
+       name 5, as a descriptor's name or as the title of a successor *)
+    let alias_free = List.for_all (function
+        | Push (d, c) -> ii (d_name d) <> 5 && List.for_all (fun (_, n) -> ii n <> 5) (c.b_tl @ c.b_pre_tl)
+        | _ -> true) ops in
+    let sl = if alias_free then List.map show_fout (snd (runf (fspec_step (store.[4] = '1')) fspec_init ops)) else l in
+    (l, sl, show_disk (List.map (fun (p, c) -> Printf.sprintf "%d=%d,%d" (ii p) (ii c.b_hash) (ii c.b_len)) st.f_disk))
   end else
   match store with
   | "mem" ->
